@@ -93,6 +93,7 @@ func main() {
 			}
 		}
 	}
+	checkReplaced()
 	if len(unsupported) > 0 {
 		for _, u := range unsupported {
 			fmt.Fprintln(os.Stderr, u)
@@ -387,10 +388,16 @@ func directiveOnly(cg *ast.CommentGroup) *ast.CommentGroup {
 // information: an import is dropped when no identifier resolving to it remains).
 func (r *rewriter) fixImports() {
 	used := map[*types.PkgName]bool{}
+	usedNames := map[string]bool{} // package qualifiers in code spliced in by the rewriter
 	ast.Inspect(r.file, func(n ast.Node) bool {
-		if id, ok := n.(*ast.Ident); ok {
-			if pn, ok := r.info.Uses[id].(*types.PkgName); ok {
+		switch x := n.(type) {
+		case *ast.Ident:
+			if pn, ok := r.info.Uses[x].(*types.PkgName); ok {
 				used[pn] = true
+			}
+		case *ast.SelectorExpr:
+			if id, ok := x.X.(*ast.Ident); ok && r.info.Uses[id] == nil && r.info.Defs[id] == nil {
+				usedNames[id.Name] = true
 			}
 		}
 		return true
@@ -408,7 +415,7 @@ func (r *rewriter) fixImports() {
 		} else {
 			pn, _ = r.info.Implicits[imp].(*types.PkgName)
 		}
-		if pn == nil || used[pn] {
+		if pn == nil || used[pn] || usedNames[pn.Name()] {
 			continue
 		}
 		path, _ := strconv.Unquote(imp.Path.Value)
@@ -425,8 +432,8 @@ func (r *rewriter) pre(c *astutil.Cursor) bool {
 	if n == nil {
 		return true
 	}
-	if r.skip[n] {
-		// still descend: sub-expressions (channel expressions) may need rewriting
+	if b, ok := n.(*ast.BlockStmt); ok && r.skip[b] {
+		return false // replaced function body: hand-written against simrt/simos
 	}
 	switch x := n.(type) {
 	case *ast.FuncLit:
